@@ -35,6 +35,7 @@ func TestVerifC10Log(t *testing.T) {
 	res := vNewResult("C10", "[commit-log level] logs of 0-10 keyed messages (timestamps with gaps and repeats) on MaxSegmentBytes {1,100,250}, optionally compacted (keys from 3) or trimmed by a message limit, "+
 		"HW at every position; for each log: EarliestOffsetAfterTimestamp / LatestOffsetBeforeTimestamp for every timestamp from before the first to after the last message (at, between, outside), "+
 		"and the committed reverse reader from every start offset -1..newest+1; compared with the Lean model and with oracles (first retained ts>=T, last retained ts<=T, retained committed records <= start in descending order); "+
+		"a forward committed subscription whose segment is replaced by a compaction or a tail truncation while it is open (delivered offsets strictly increasing, = delivered before + retained from there on); "+
 		"non-trivial = at least 2 segments or a sparse log; distinct by program text")
 	defer res.Write(t)
 	rnd := vNewRand(10)
@@ -191,6 +192,10 @@ func TestVerifC10Log(t *testing.T) {
 			check(c) // partition-level cases (sub/drain) belong to TestVerifC10 in package server
 		}
 	}
+	// "each once, in the requested order", on a log that is compacted (or cut at its tail) WHILE the forward subscription is
+	// open: the reader's segment is replaced underneath it and it resumes; what it delivers must stay strictly increasing and be
+	// what it had delivered plus what is retained from there on (the scenario of C03, judged here by C10's words)
+	vC03SegmentReplaced(t, res, rnd)
 	n := 700
 	if vThorough() {
 		n = 15000
